@@ -10,7 +10,8 @@ EXPLANATION = (
     "Type-range argument recorded with the evidence: (2^64-1) * 10^12 < 2^104, so the dev-profile overflow assertion of "
     "the multiplication is dead and the division cannot trap (NonZeroU64). R11.2 From<Duration> multiplies as_nanos() by "
     "the constant 1000 with checked_mul; Timestamp::duration_since dispatches Os->Os and Tsc->Tsc only, each as "
-    "self.duration_since(earlier) in that direction.")
+    "self.duration_since(earlier) in that direction."
+    " R11.3 measure_precision: the running minimum starts at the sentinel, is replaced only by a sample that compared Less, zero samples never reach the comparison, the minimum is returned only after a comparison with a measured sample, and Timer::precision caches per kind what measure_precision returned.")
 NOT_DECIDED = ["monotonicity / additivity (consequences of the formula, not checked separately)",
                "the precision clause beyond R11.3: that the probing converges on a given uniform-step clock is a run-time matter; R11.3 decides that what is "
                "reported is the smallest non-zero difference observed and never the sentinel"]
